@@ -17,6 +17,7 @@ class Trace:
         self.rules = {}      # rule name -> count
         self.dropped = []    # free-text list of dropped things
         self.items = []      # (file, item header) extracted
+        self.lost = {}       # function -> [proof/invariant anchors that were not found]: that function alone is undecided
 
     def fire(self, rule, n=1):
         if n:
